@@ -246,7 +246,7 @@ Qed.
 Lemma step_reparent_total : forall s o np nn, Inv s -> guard_reparent s o np nn -> exists s', step s (Reparent o np nn) = Some s'.
 Proof.
   intros s o np nn HI [Ho [Hnp [Hnpmod [[oldp [Hopar [Holdcan Hentry]]] [Hnotanc [Hfree [Hcov Hmodpkg]]]]]]].
-  cbn [step]. unfold reparent.
+  cbn [step]. unfold reparent, reparent_tail.
   destruct (remove_tree_total s o HI Ho) as [T [m1 [ET Em1]]].
   unfold remove_tree. rewrite ET, Em1. rewrite Hopar. rewrite Holdcan. cbn [negb]. cbv iota.
   destruct (reg_self s HI o Ho) as [po [Hpo _]]. destruct (reg_self s HI np Hnp) as [pn [Hpn _]].
